@@ -14,6 +14,7 @@
   * what a COPIED engine would do instead (`chainCopied`: every sample sees the same draw).
 -/
 import AITB.Model.Sampling
+import AITB.Model.SamplingModels
 
 namespace AITB.Sampling
 
@@ -91,5 +92,16 @@ def pomdpRow (T O : Nat → Nat → List Rat) (pol : List Nat → Nat) (s0 : Nat
 
 def pomdpRollout (T O : Nat → Nat → List Rat) (pol : List Nat → Nat) (s0 : Nat) (us : List Rat) : List Nat :=
   chainSample (pomdpRow T O pol s0) us
+
+/-! ## gamma-based samplers with the underflow fallback (fixes/C08-8) -/
+
+/-- `sampleDirichletDistribution` with the underflow fallback (fixes/C08-8): `gs` are the plain gamma draws; when
+    their sum is exactly 0 (every draw underflowed) the numbers `hs` = exp(log-gamma − max) are normalised instead -/
+def dirichletWithFallback (gs hs : List Rat) : List Rat :=
+  if gs.sum == 0 then dirichletFromGammas hs else dirichletFromGammas gs
+
+/-- `sampleBetaDistribution` with the same fallback -/
+def betaWithFallback (x y hx hy : Rat) : Rat :=
+  if x + y == 0 then betaFromGammas hx hy else betaFromGammas x y
 
 end AITB.Sampling
